@@ -7,6 +7,8 @@ CHECKS=("$@")
 SRC=/tmp/seedwork-$PID/$N
 WT=/tmp/wt-seedeval-$PID-$N
 export GOFLAGS=-mod=mod GOPROXY=off GOSUMDB=off GOTOOLCHAIN=local
+# only the root package and internal/transport bind TCP port 26001: serialise those, nothing else
+lk() { case "$1" in .|./|./internal/transport*|./plugin*) echo "flock /tmp/port26001.lock";; *) echo "";; esac; }
 git -C /repo worktree add --detach $WT HEAD >/dev/null 2>&1
 OUT=/verif/seeded/$PID-$N; mkdir -p $OUT
 cp $SRC/patch.diff $SRC/meta.json $OUT/ 2>/dev/null; cp $SRC/demo_test.go $OUT/demo_test.go 2>/dev/null; cp $SRC/README* $OUT/ 2>/dev/null
@@ -14,15 +16,15 @@ DEMOPKG=./$(dirname $DEST)
 RES=$OUT/eval.txt; : > $RES
 echo "== clean tree: demo" | tee -a $RES
 cp $SRC/demo_test.go $WT/$DEST
-(cd $WT && flock /tmp/port26001.lock go test -vet=off -count=1 -run 'Demo|ZZ' $DEMOPKG 2>&1 | grep -v "^20" | tail -3) | tee -a $RES
+(cd $WT && $(lk $DEMOPKG) go test -vet=off -count=1 -run 'Demo|ZZ' $DEMOPKG 2>&1 | grep -v "^20" | tail -3) | tee -a $RES
 echo "== apply patch" | tee -a $RES
 if ! git -C $WT apply $SRC/patch.diff; then echo "PATCH DOES NOT APPLY" | tee -a $RES; fi
 (cd $WT && go build ./... 2>&1 | head -3) | tee -a $RES
 echo "== patched: demo (must fail)" | tee -a $RES
-(cd $WT && flock /tmp/port26001.lock go test -vet=off -count=1 -run 'Demo|ZZ' $DEMOPKG 2>&1 | grep -v "^20" | grep "FAIL\|ok\|---" | head -5) | tee -a $RES
+(cd $WT && $(lk $DEMOPKG) go test -vet=off -count=1 -run 'Demo|ZZ' $DEMOPKG 2>&1 | grep -v "^20" | grep "FAIL\|ok\|---" | head -5) | tee -a $RES
 rm -f $WT/$DEST
 echo "== patched: existing tests of ${PKGS[*]}" | tee -a $RES
-for p in "${PKGS[@]}"; do (cd $WT && flock /tmp/port26001.lock go test -vet=off -count=1 $p 2>&1 | grep -v "^20" | tail -1) | tee -a $RES; done
+for p in "${PKGS[@]}"; do (cd $WT && $(lk $p) go test -vet=off -count=1 $p 2>&1 | grep -v "^20" | tail -1) | tee -a $RES; done
 for id in "${CHECKS[@]}"; do
   echo "== check $id against the patched tree" | tee -a $RES
   O=$(cd /verif && VERIF_STOP_FIRST=1 VERIF_REPO=$WT ./check $id 2>&1); RC=$?
